@@ -88,8 +88,10 @@ for mod, cfgf, consts, inv, spec in [("MC_Object", "cov_obj.cfg", c15.obj_consta
     report("6. coverage %s: %d actions, none with zero count" % (mod, len(acts)), acts and not zero, str(zero))
 cfg = tlc.write_cfg(os.path.join(ctx.work, "cov_wl.cfg"), constants=dict({"MaxDepth": 14}, **c18.WLARITH), constraints=["Depth"], invariants=["GIncrement"])
 res = tlc.run_tlc("MC_WL", cfg, ctx.work, coverage=True, tag="covwl")
-zero = [a for a, n in res.coverage.items() if n == 0 and a in ("WLStep", "FlatCheck")]
-report("6. coverage MC_WL: WLStep and FlatCheck both taken", not zero and "FlatCheck" in res.coverage, str(res.coverage))
+# the step disjunct of WLNext is anonymous (an existential over the proposal and the decision): it is taken when more states are
+# generated than the flat checks alone produce
+flat = res.coverage.get("FlatCheck", 0)
+report("6. coverage MC_WL: flat checks taken (%d) and steps taken (%d states generated)" % (flat, res.generated), flat > 0 and res.generated > 2 * flat, str(res.coverage))
 import shutil; shutil.rmtree(ctx.work, ignore_errors=True)
 print("SELFTEST", "PASSED" if ok else "FAILED")
 sys.exit(0 if ok else 1)
